@@ -3,6 +3,7 @@ package main
 import (
 	"errors"
 	"fmt"
+	"strings"
 
 	"go.lstv.dev/util/roman"
 )
@@ -30,6 +31,23 @@ func clampN(n roman.Number) int {
 		return -2
 	}
 	return int(n)
+}
+
+// ownRoman is the harness's own standard (subtractive) numeral, independent of the library's formatter.
+func ownRoman(n int) string {
+	var sb strings.Builder
+	for ; n >= 1000; n -= 1000 {
+		sb.WriteByte('M')
+	}
+	vals := []int{900, 500, 400, 100, 90, 50, 40, 10, 9, 5, 4, 1}
+	syms := []string{"CM", "D", "CD", "C", "XC", "L", "XL", "X", "IX", "V", "IV", "I"}
+	for i, v := range vals {
+		for n >= v {
+			sb.WriteString(syms[i])
+			n -= v
+		}
+	}
+	return sb.String()
 }
 
 func romanParse(in []byte, rule roman.Rule, T string) (n roman.Number, err error, panicked bool) {
@@ -122,6 +140,24 @@ func init() {
 		} else {
 			e["back"] = clampN(r)
 		}
+		// one read buffer: the standard numeral of n, then refilled with the numeral of a neighbour of
+		// the same length (IV / VI, XL / LX ...) and parsed again
+		t1 := ownRoman(int(n))
+		sib := int(n) + 1
+		for _, dlt := range []int{2, -2, 1, -1, 4, -4, 20, -20, 200, -200, 10, -10, 100, -100, 1000} {
+			if c := int(n) + dlt; c >= 0 && len(ownRoman(c)) == len(t1) {
+				sib = c
+				break
+			}
+		}
+		pr := func(t string) int {
+			v, err := roman.DefaultParser(reused([]byte(t)), 0)
+			if err != nil {
+				return -1
+			}
+			return clampN(v)
+		}
+		e["reuse"], e["sibn"], e["sibtext"] = []int{pr(t1), pr(ownRoman(sib))}, sib, ownRoman(sib)
 		return e
 	}
 
